@@ -27,7 +27,37 @@ def sh(cmd, cwd=None, env=None, timeout=3600):
     return r.returncode, (r.stdout + r.stderr)
 
 
+def recheck(ids):
+    """re-run the quick check against already filed seeded changes (after strengthening a check) and update meta.json"""
+    for sid in ids:
+        dst = os.path.join(ROOT, "seeded", sid)
+        meta = json.load(open(os.path.join(dst, "meta.json")))
+        pid = meta["property"]
+        wt = f"/tmp/wtr_{sid}"
+        sh(f"git -C /repo worktree remove --force {wt}")
+        rc, out = sh(f"git -C /repo worktree add -q --detach {wt} HEAD")
+        assert rc == 0, out
+        try:
+            rca, oa = sh(f"git apply {dst}/patch.diff", cwd=wt)
+            if rca != 0:
+                print(f"{sid}: patch does not apply to HEAD: {oa[:200]}")
+                continue
+            t0 = time.time()
+            rcc, oc = sh(f"{ROOT}/check {pid} --tier quick --no-evidence", cwd=ROOT, env=dict(ENV, VERIF_REPO=wt), timeout=7200)
+            viol = [l for l in oc.splitlines() if l.startswith("violation in")][:2]
+            head = sh("git -C /verif rev-parse --short HEAD")[1].strip()
+            meta["ran"].append({"cmd": f"recheck after strengthening (verif {head}): VERIF_REPO=<worktree> ./check {pid} --tier quick", "exit": rcc,
+                                "wall_s": round(time.time() - t0, 1), "first_violations": viol})
+            meta["caught_by_quick_check"] = rcc == 1
+            json.dump(meta, open(os.path.join(dst, "meta.json"), "w"), indent=1)
+            print(f"{sid}: recheck exit={rcc} {'CAUGHT' if rcc == 1 else 'MISSED'} {viol[:1]}", flush=True)
+        finally:
+            sh(f"git -C /repo worktree remove --force {wt}")
+
+
 def main():
+    if sys.argv[1] == "--recheck":
+        return recheck(sys.argv[2:])
     pid = sys.argv[1].upper()
     src = f"/tmp/seeded_out/{pid}"
     ks = sys.argv[2:] or sorted(re.findall(r"patch(\d+)\.diff", " ".join(os.listdir(src))))
